@@ -69,14 +69,14 @@ _CT = ("one generated Kani contract per loop-free world message: the real read_b
 _CTNOTE = ("Trusted: Kani/CBMC, the independent wowm reader spec/wowm.py and walker runtime contracts/kani/spec_rt.rs. Scope: the 1,065 loop-free world messages "
            "(fixed-width scalars, enums/flags, Bool, Guid, PackedGuid, DateTime, small fixed arrays, nested structs, if/else/optional) that verify within the per-harness budget "
            "(container_costs.json; the rest are listed as excluded_for_resources); quick = changed files + seeded sample. NOT decided: messages with strings, variable/endless arrays, masks, splines, "
-           "compressed parts as a class: for 334 of them bounded concrete-shape contracts (gen/shapes.py: branch choice, counts/lengths in {0,1,2}, other bytes symbolic) are generated and run whenever the message's files differ from the baseline, "
+           "compressed parts as a class (opcode dispatch is covered by the C04 slices): for 334 of them bounded concrete-shape contracts (gen/shapes.py: branch choice, counts/lengths in {0,1,2}, other bytes symbolic) are generated and run whenever the message's files differ from the baseline, "
            "but they are unmeasured on the unchanged tree and therefore never counted as proved; login messages are not covered. "
            "ParseError.kind is read through a #[cfg(kani)] accessor appended to the scratch copy of errors.rs.")
 CLAIMED["C01"] = dict(
     technique=_CT + "; clauses: canonical encodings are accepted, fully consumed, and re-encode to identical bytes; hand-written primitive codecs (packed guid, cstring, bool) under their own contracts",
     text="Proof for the loop-free messages: for every byte string that the wowm definition makes a canonical encoding (all branches, all enumerators, numeric extremes), decoding succeeds, consumes the body, "
          "and re-encoding yields the same bytes with size()==bytes written. Complete per message (symbolic bytes up to max size + 2), not sampled.",
-    note=_CTNOTE + " Known finding (open): Level16/Level32 values above 255 are truncated to the u8 Level type.",
+    note=_CTNOTE + " Known findings (open): Level16/Level32 values above 255 are truncated to the u8 Level type; CMSG_GUILD_BANK_SWAP_ITEMS (tbc, wrath) cannot decode its exact canonical encodings (endless array after a complex enum).",
     design="§4 C01, §13")
 CLAIMED["C03"] = dict(
     technique=_CT + "; obligations = Kani's built-in checks (panic, overflow, out-of-bounds, unwinding) on the decode path for every byte string; primitive readers total for all inputs",
@@ -85,10 +85,11 @@ CLAIMED["C03"] = dict(
     note=_CTNOTE + " The allocation-budget clause is only covered through the primitives (sized cstring) - variable arrays are outside the loop-free class. Fixed: Bool panics, SizedCString size 0 underflow.",
     design="§4 C03, §13")
 CLAIMED["C04"] = dict(
-    technique=_CT + "; clauses: the walker evaluates every enum-typed member at its full wire width - an undeclared value must yield Err(Enum) reporting exactly that value; fixed-size messages reject every other length",
+    technique=_CT + "; clauses: the walker evaluates every enum-typed member at its full wire width - an undeclared value must yield Err(Enum) reporting exactly that value; fixed-size messages reject every other length; "
+              "plus Kani contracts over ALL opcode values on mechanical slices of the six read_opcodes dispatchers against the opcode tables of the wowm corpus",
     text="Proof for the loop-free messages: an enum member (incl. upcast ones, nested in structs, under conditionals) carrying an undeclared value at full wire width is rejected with an enum error reporting that value; "
-         "constant-size messages accept exactly their size.",
-    note=_CTNOTE + " Unknown-opcode rejection (read_opcodes dispatch) is not yet under contract. Fixed: upcast enums were truncated before validation (133 sites).",
+         "constant-size messages accept exactly their size; every opcode not defined for the expansion and direction is rejected with an error reporting it, every defined one reaches the decoder of the message the wowm assigns to it.",
+    note=_CTNOTE + " The opcode slices keep each arm's pattern and the message it names and drop the arm bodies (patterns are single integer literals, which the extractor checks). Login opcode dispatch is not covered. Fixed: upcast enums were truncated before validation (133 sites).",
     design="§4 C04, §13")
 CLAIMED["C09"] = dict(
     technique="Verus: one interval obligation per generated world message (1,428) over the wowm length formula (branch selectors, optional presence, string lengths, array counts as parameters) against the size-guard literals re-read from each read_inner; Kani clause `canonical encoding never rejected with InvalidSize` on the loop-free messages; packed-guid size contract",
